@@ -13,14 +13,15 @@ if '--tests' in args:
 if '-j' in args:
     jobs = int(args[args.index('-j') + 1])
 root = os.path.dirname(os.path.dirname(os.path.abspath(__file__)))
+REPO = os.environ.get('CFFVERIF_SWEEP_REPO', '/repo')  # the tree the mutants are made of
 env = dict(os.environ, GOFLAGS='-mod=mod', GOPROXY='off', GOSUMDB='off', GOTOOLCHAIN='local', GOWORK='off', GOCACHE=os.environ.get('GOCACHE', '/tmp/gocache_verif'))
-muts = json.loads(subprocess.check_output([os.path.join(root, 'bin/mutgen'), os.path.join('/repo', rel)]))
-src = open(os.path.join('/repo', rel), 'rb').read()
+muts = json.loads(subprocess.check_output([os.path.join(root, 'bin/mutgen'), os.path.join(REPO, rel)]))
+src = open(os.path.join(REPO, rel), 'rb').read()
 
 def run(m):
     d = tempfile.mkdtemp(prefix='mutsweep.', dir='/tmp')
     try:
-        subprocess.check_call(['rsync', '-a', '--exclude', '.git', '/repo/', d + '/repo/'])
+        subprocess.check_call(['rsync', '-a', '--exclude', '.git', REPO + '/', d + '/repo/'])
         new = src[:m['start']] + m['new'].encode() + src[m['end']:]
         open(os.path.join(d, 'repo', rel), 'wb').write(new)
         pkgdir = os.path.dirname(rel) or '.'
